@@ -7,6 +7,7 @@ meaning on '/'-separated components; `LA.PathClean.stripAbsolute` is bsdtar's
 `strip_absolute_path`.  Helper lemmas live in `LA/Lemmas/PathClean.lean`.
 -/
 import LA.Lemmas.PathClean
+import LA.Lemmas.XtrConfine
 set_option linter.unusedSimpArgs false
 namespace LA.C04
 open LA.PathClean
@@ -215,5 +216,135 @@ theorem strip_absolute_sound (s : List Nat) :
 
 example : ∃ k, stripAbsolute [47, 47, 63, 47, 99, 58, 47, 46, 46, 47, 120] = some k :=   -- "//?/c:/../x"
   (strip_absolute_sound _).imp fun _ h => h.1
+
+/-! ## Part 2: symlink check and whole extractions over the abstract POSIX tree
+
+`LA.FS` is the tree, `LA.Xtr` the model of the disk writer (programs over system
+calls).  Helper lemmas: `LA/Lemmas/FS*.lean`, `LA/Lemmas/Xtr*.lean`. -/
+
+open LA.FS LA.Xtr
+
+/-- `check_symlinks_fsobj` under SECURE_SYMLINKS on a cleaned path `q` (the output of
+`cleanup_pathname_fsobj`, other than "."): if it returns ARCHIVE_OK then, in the
+file system as it is at that moment, no component of `q` is a symlink; so the kernel
+resolution of every prefix of `q` goes nowhere but down from the working
+directory — it ends at `cwd ++ prefix` — and stays inside the target.  The
+working directory and the umask are what they were. -/
+theorem check_symlinks_sound (fl : XFlags) (hsec : fl.secureSymlinks = true) (p q : List Nat) (hp : NulFree p)
+    (hcl : cleanup secure p = .ok q) (hq : q ≠ [DOT]) (pr : Proc)
+    (h : ((checkSymlinks fl false q).run pr).1 = .ok) :
+    NoLinkAt ((checkSymlinks fl false q).run pr).2.fs pr.cwd (compsOf q) ∧
+    (∀ b cs r, cs <+: compsOf q → walk ((checkSymlinks fl false q).run pr).2.fs b pr.cwd cs = .ok r →
+      r = pr.cwd ++ cs ∧ pr.cwd <+: r) ∧
+    ((checkSymlinks fl false q).run pr).2.cwd = pr.cwd ∧ ((checkSymlinks fl false q).run pr).2.umask = pr.umask := by
+  have hg : Good q := by
+    rcases nameOK_of_cleanup hp hcl with h | h
+    · exact absurd h hq
+    · exact h
+  let c : Ctx := ⟨pr.cwd, fun _ => True, 0, pr.fs.root, pr.fs.files⟩
+  have hnl := (checkSymlinks_spec c fl hsec false q hg pr).2 h
+  simp only [loopTarget, Bool.false_eq_true, if_false] at hnl
+  refine ⟨hnl, ?_, (run_env _ pr).1, (run_env _ pr).2⟩
+  intro b cs r hpre hw
+  have hnd : NoDots cs := fun x hx => (rel_good hg).noDots x (hpre.subset hx)
+  cases hget : get ((checkSymlinks fl false q).run pr).2.fs.root pr.cwd with
+  | none =>
+    cases cs with
+    | nil => rw [walk] at hw; simp at hw; subst hw; simp
+    | cons x rest => rw [walk] at hw; simp [hget] at hw
+  | some t =>
+    have := walk_noLink _ b cs pr.cwd t hnd hget (noLinkT_prefix _ _ _ t hpre (hnl t hget)) r hw
+    subst this
+    exact ⟨rfl, List.prefix_append _ _⟩
+
+/-- Entries are C strings. -/
+def EntryStrings (e : Entry) : Prop := NulFree e.path ∧ NulFree e.link
+
+/-- What "nothing outside the target was touched" means for an extraction that
+started in state `pr` and ended in `pr'`.  `S` is any set of inodes containing
+every inode that had a name inside the target at the start. -/
+structure Confined (S : Nat → Prop) (pr pr' : Proc) : Prop where
+  /-- the directory tree with the target subtree cut out is identical: every
+  directory outside (entries, mode, mtime) and every name outside still refers
+  to what it referred to -/
+  outside_tree : mask pr.cwd pr'.fs.root = mask pr.cwd pr.fs.root
+  /-- every inode that had no name inside the target is identical (type, content, mode, mtime, link target) -/
+  outside_inodes : ∀ i, i < pr.fs.next → ¬ S i → pr'.fs.files i = pr.fs.files i
+  /-- no name inside the target refers to such an inode: no hard link to an outside object was made
+  (so, with `outside_tree`, link counts of outside inodes are unchanged) -/
+  no_new_links : ∀ t, get pr'.fs.root pr.cwd = some t → RefsIn (fun i => S i ∨ pr.fs.next ≤ i) t
+  cwd : pr'.cwd = pr.cwd
+  umask : pr'.umask = pr.umask
+
+/-- A process about to extract: it stands in a directory, holds no descriptor,
+and the inode table is consistent with the tree. -/
+structure Start (S : Nat → Prop) (pr : Proc) : Prop where
+  tdir : ∃ t, get pr.fs.root pr.cwd = some t ∧ t.isDir = true
+  inside : ∀ t, get pr.fs.root pr.cwd = some t → RefsIn S t
+  wf : WF pr.fs
+  nofd : pr.fd = none ∧ pr.dfd = none ∧ pr.xfd = none
+
+theorem sem_of_start {S : Nat → Prop} {pr : Proc} (h : Start S pr) :
+    Sem ⟨pr.cwd, S, pr.fs.next, pr.fs.root, pr.fs.files⟩ [] pr := by
+  refine ⟨⟨rfl, fun _ _ _ => rfl, ?_, Nat.le_refl _, h.tdir, rfl, ?_, ?_, ?_⟩, h.wf, fun _ _ => trivial⟩
+  · intro t ht p ino hp; exact Or.inl (h.inside t ht p ino hp)
+  · intro i hi; rw [h.nofd.1] at hi; simp at hi
+  · intro d hd; rw [h.nofd.2.1] at hd; simp at hd
+  · intro x hx; rw [h.nofd.2.2] at hx; simp at hx
+
+/-- **The property, full strength** (stated; see `extract_confined_partial` for what is proved):
+for every finite sequence of entries of the five kinds with arbitrary names and link
+targets, every initial content of the file system (inside and outside the target) and
+every option set with the three SECURE flags, an extraction touches nothing outside. -/
+def ExtractConfined : Prop :=
+  ∀ (fl : XFlags) (es : List Entry) (S : Nat → Prop) (pr : Proc),
+    SecureFlags fl → (∀ e ∈ es, EntryStrings e) → Start S pr →
+    Confined S pr ((extractArchive fl es).run pr).2
+
+/-- **Proved part**: the same, for sequences in which hard-link entries carry no
+body (`NoHardlinkData`; plain tar hard links).  Everything else of the quantifier
+is covered: all names and link targets, all five kinds, any order, any initial
+tree, UNLINK / NO_OVERWRITE / SAFE_WRITES / PERM / TIME on or off, the deferred
+fix-ups at close.
+
+What is missing for `ExtractConfined`: for a hard-link entry *with* data
+`create_filesystem_object` calls `lstat(a->name)` after a successful `linkat`;
+the proof needs the lemma "that `lstat` sees the link just made" (a frame lemma
+for `walk` under `putAt`) to exclude the branch "link made to a symlink, `lstat`
+fails, metadata still pending". -/
+theorem extract_confined_partial (fl : XFlags) (es : List Entry) (S : Nat → Prop) (pr : Proc)
+    (hfl : SecureFlags fl) (hes : ∀ e ∈ es, EntryStrings e ∧ NoHardlinkData e) (hst : Start S pr) :
+    Confined S pr ((extractArchive fl es).run pr).2 := by
+  have h0 := sem_of_start hst
+  have := extractArchive_spec ⟨pr.cwd, S, pr.fs.next, pr.fs.root, pr.fs.files⟩ fl hfl es
+    (fun e he => ⟨(hes e he).1.1, (hes e he).1.2, (hes e he).2⟩) pr h0
+  exact ⟨this.inv.tree, this.inv.files, this.inv.refs, (run_env _ pr).1, (run_env _ pr).2⟩
+
+/-- Offending names are refused with ARCHIVE_FAILED, never ARCHIVE_FATAL, without a
+single system call; the writer is left ready for the next entry. -/
+theorem refused_not_fatal (w : Writer) (e : Entry) (pr : Proc) (hfl : SecureFlags w.flags) (hp : NulFree e.path)
+    (hbad : e.path = [] ∨ e.path.head? = some SLASH ∨ [DOT, DOT] ∈ splitSlash e.path) :
+    (header w e).run pr = ((.failed, { w with cur := none }), pr) := by
+  have hrej : ∃ x, cleanup w.flags.clean e.path = .failed x := by
+    rw [clean_secure hfl]
+    obtain ⟨h1, h2, h3⟩ := cleanup_rejects { nodotdot := true, noabs := true } e.path hp
+    rcases hbad with h | h | h
+    · exact ⟨_, h1 h⟩
+    · exact ⟨_, h2 rfl h⟩
+    · exact h3 rfl h
+  obtain ⟨x, hx⟩ := hrej
+  unfold header
+  simp only [hx]
+  rfl
+
+/-- The process working directory and umask are the same after every call of the
+writer API as before it. -/
+theorem umask_cwd_restored (w : Writer) (e : Entry) (d : List Nat) (pr : Proc) :
+    ((header w e).run pr).2.cwd = pr.cwd ∧ ((header w e).run pr).2.umask = pr.umask ∧
+    ((writeData w d).run pr).2.cwd = pr.cwd ∧ ((writeData w d).run pr).2.umask = pr.umask ∧
+    ((finishEntry w).run pr).2.cwd = pr.cwd ∧ ((finishEntry w).run pr).2.umask = pr.umask ∧
+    ((close w).run pr).2.cwd = pr.cwd ∧ ((close w).run pr).2.umask = pr.umask :=
+  ⟨(run_env _ pr).1, (run_env _ pr).2, (run_env _ pr).1, (run_env _ pr).2,
+   (run_env _ pr).1, (run_env _ pr).2, (run_env _ pr).1, (run_env _ pr).2⟩
 
 end LA.C04
